@@ -105,4 +105,11 @@ def run(rep, tier, root=None):
             raise AnalysisError("CovarianceMatrix.%s not found" % mname)
         rep.functions_analysed.add(bm.fq)
         tile_only(rep, ix, cls, bm, wc, "S3.block-layout")
+    # ... and only if every sensor's sub-apertures are projected onto a layer by the same geometric rule from its own
+    # (current) direction and altitude: a duplicated sensor then has the same projected geometry as its original, and its
+    # covariance rows are the original's (C01's projection rules, on the builder the reconstructor's matrix comes from)
+    from .c01 import projection_rules, float_positions_rule, ORACLE as C01_ORACLE
+    from ..fx import FX
+    projection_rules(rep, ix, FX(ix), cls, ix.virtual("_oracle_c01", C01_ORACLE))
+    float_positions_rule(rep, top)
     rep.floor("C02 obligations", len(rep.obligations), 7)
